@@ -147,7 +147,7 @@ def verify_functions(quals, timeout_ms, procs=None):
     # budget, so that machine load does not flip a verdict
     total_unknown = sum(1 for o in outs for r in o.get('results', []) if r['status'] == 'unknown')
     for k, (o, t) in enumerate(zip(outs, tasks)):
-        if total_unknown > 8:
+        if total_unknown > 20:
             break          # many undecided obligations: the code no longer matches its contracts; go to replay
         unk = set(r['name'] for r in o.get('results', []) if r['status'] == 'unknown')
         if not unk or o.get('cached') or len(unk) > 4 or any(r['status'] == 'sat' for r in o.get('results', [])):
